@@ -1,8 +1,9 @@
 import WM.Proto
 import WM.Model.Numeric
 import WM.Spec.Numeric
+import WM.Model.NumericDate
 namespace WM.Drv.C13
-open WM.Proto WM.Proto.SExp WM.Numeric WM.NumericSpec
+open WM.Proto WM.Proto.SExp WM.Numeric WM.NumericSpec WM.NumericDate
 
 def showR (r : R) : String := s!"({r.lo} {r.hi} {r.shift})"
 def showRs (rs : List R) : String := showList showR rs
@@ -21,8 +22,98 @@ def showSub : Sub → String
 def optInt? (e : SExp) : Option (Option Int) := opt? int? e
 def optNat? (e : SExp) : Option (Option Nat) := opt? nat? e
 
+def showADT (p : ADT) : String :=
+  let f (o : Option Nat) : String := match o with | some v => toString v | none => "none"
+  s!"({f p.year} {f p.month} {f p.day} {f p.hour} {f p.minute} {f p.second} {f p.micro})"
+
+def showOptInt : Option Int → String
+  | some v => toString v
+  | none => "none"
+
+def showDQ : DQ → String
+  | .error => "error"
+  | .range a b => s!"range {a} {b}"
+  | .term a => s!"term {a}"
+
+def optCodes? (e : SExp) : Option (Option (List Nat)) :=
+  match e with
+  | .atom "none" => some none
+  | e => (natList? e).map some
+
+/-- Date-layer requests (round 3). -/
+def handleDate : List SExp → Option String
+  | [.atom "ordinal", y, m, d] =>
+    match y.nat?, m.nat?, d.nat? with
+    | some y, some m, some d => some (toString (ordinal y m d))
+    | _, _, _ => some "bad-op"
+  | [.atom "dim", y, m] =>
+    match y.nat?, m.nat? with
+    | some y, some m => some (toString (daysInMonth (isLeap y) m))
+    | _, _ => some "bad-op"
+  | [.atom "civil2long", y, m, d, h, mi, s, us] =>
+    match y.nat?, m.nat?, d.nat?, h.nat?, mi.nat?, s.nat?, us.nat? with
+    | some y, some m, some d, some h, some mi, some s, some us =>
+      some (showEx toString ((mkDatetime y m d h mi s us).map civilToLong))
+    | _, _, _, _, _, _, _ => some "bad-op"
+  | [.atom "dt-parse", cs] =>
+    match natList? cs with
+    | some cs => some (showEx showADT (parseDatestring cs))
+    | none => some "bad-op"
+  | [.atom "dt-bounds", cs] =>
+    match natList? cs with
+    | some cs => some (showEx (fun (p : Int × Int) => s!"{p.1} {p.2}") (do
+        let p ← parseDatestring cs
+        let f ← p.floor
+        let c ← p.ceil
+        pure (civilToLong f, civilToLong c)))
+    | none => some "bad-op"
+  | [.atom "dt-prepare", cs] =>
+    match natList? cs with
+    | some cs => some (showEx toString (prepareDateText cs))
+    | none => some "bad-op"
+  | [.atom "dt-parse-range", a, b, sx, ex] =>
+    match optCodes? a, optCodes? b, sx.bool?, ex.bool? with
+    | some a, some b, some sx, some ex =>
+      some (showEx (fun (r : Option (Option Int × Option Int)) => match r with
+        | none => "every"
+        | some (x, y) => s!"range {showOptInt x} {showOptInt y}") (parseRange a b sx ex))
+    | _, _, _, _ => some "bad-op"
+  | [.atom "dt-parse-query", cs] =>
+    match natList? cs with
+    | some cs => some (showEx showDQ (parseQuery cs))
+    | none => some "bad-op"
+  | [.atom "tocol-int", n, sg, x] =>
+    match n.nat?, sg.bool?, x.int? with
+    | some n, some sg, some x => some (showEx toString (toColumnInt n sg x))
+    | _, _, _ => some "bad-op"
+  | [.atom "fromcol-int", n, sg, x] =>
+    match n.nat?, sg.bool?, x.int? with
+    | some n, some sg, some x => some (toString (fromColumnInt n sg x))
+    | _, _, _ => some "bad-op"
+  | [.atom "tocol-float", sg, b] =>
+    match sg.bool?, b.nat? with
+    | some sg, some b => some (showEx toString (toColumnFloat sg b))
+    | _, _ => some "bad-op"
+  | [.atom "fromcol-float", sg, x] =>
+    match sg.bool?, x.int? with
+    | some sg, some x => some (showEx toString (fromColumnFloat sg x))
+    | _, _ => some "bad-op"
+  | [.atom "tocol-dec", n, sg, dc, q] =>
+    match n.nat?, sg.bool?, dc.nat?, q.rat? with
+    | some n, some sg, some dc, some q => some (showEx toString (toColumnDecimal n sg dc q))
+    | _, _, _, _ => some "bad-op"
+  | [.atom "fromcol-dec", n, sg, dc, x] =>
+    match n.nat?, sg.bool?, dc.nat?, x.int? with
+    | some n, some sg, some dc, some x => some (showRat (fromColumnDecimal n sg dc x))
+    | _, _, _, _ => some "bad-op"
+  | [.atom "fromcol-dt", x] =>
+    match x.int? with
+    | some x => let t := fromColumnDatetime x; some s!"{t.days} {t.seconds} {t.micros}"
+    | none => some "bad-op"
+  | _ => none
+
 /-- Protocol handler of family `c13` (requests arrive without the family token). -/
-def handle : List SExp → String
+def handleCore : List SExp → String
   | [.atom "split", n, step, s, e] =>
     match n.nat?, step.nat?, s.nat?, e.nat? with
     | some n, some step, some s, some e =>
@@ -184,5 +275,10 @@ def handle : List SExp → String
     | some vals => showNatList (sortIdx totalLt vals)
     | _ => "bad-op"
   | _ => "bad-op"
+
+def handle (req : List SExp) : String :=
+  match handleDate req with
+  | some r => r
+  | none => handleCore req
 
 end WM.Drv.C13
